@@ -3,7 +3,6 @@ package pgdump
 import (
 	"encoding/binary"
 	"fmt"
-	"os"
 	"path/filepath"
 )
 
@@ -129,7 +128,7 @@ func relMapIsV16(data []byte, numMappings int32) bool {
 // ReadGlobalRelMap reads the global pg_filenode.map
 func ReadGlobalRelMap(dataDir string) (*RelMapFile, error) {
 	path := filepath.Join(dataDir, "global", "pg_filenode.map")
-	data, err := os.ReadFile(path)
+	data, err := readRegularFile(path)
 	if err != nil {
 		return nil, fmt.Errorf("cannot read global relmap: %w", err)
 	}
@@ -147,7 +146,7 @@ func ReadGlobalRelMap(dataDir string) (*RelMapFile, error) {
 // ReadDatabaseRelMap reads a database's pg_filenode.map
 func ReadDatabaseRelMap(dataDir string, dbOID uint32) (*RelMapFile, error) {
 	path := filepath.Join(dataDir, "base", fmt.Sprintf("%d", dbOID), "pg_filenode.map")
-	data, err := os.ReadFile(path)
+	data, err := readRegularFile(path)
 	if err != nil {
 		return nil, fmt.Errorf("cannot read database relmap: %w", err)
 	}
@@ -200,7 +199,7 @@ func ReadAllRelMaps(dataDir string) (*RelMapInfo, error) {
 	info.Global = globalMap
 
 	// Read database list
-	dbData, err := os.ReadFile(filepath.Join(dataDir, "global", "1262"))
+	dbData, err := readRegularFile(filepath.Join(dataDir, "global", "1262"))
 	if err != nil {
 		return info, nil // Return with just global map
 	}
